@@ -7,6 +7,7 @@ of this property were written against (`Tea.Doc`). Written by checklib/mkbridges
 -/
 namespace Tea.Props.Bridge.C19
 
+theorem body_standardRenderer_write : Tea.Gen.fact_body_standardRenderer_write = Tea.Doc.fact_body_standardRenderer_write := rfl
 theorem body_WithFPS : Tea.Gen.fact_body_WithFPS = Tea.Doc.fact_body_WithFPS := rfl
 theorem calls : Tea.Gen.fact_calls = Tea.Doc.fact_calls := rfl
 theorem body_standardRenderer_listen : Tea.Gen.fact_body_standardRenderer_listen = Tea.Doc.fact_body_standardRenderer_listen := rfl
